@@ -57,6 +57,21 @@ Theorem C03_other_errors_propagate : forall recs c st e sf,
 Proof. intros. eapply emit_iter_err; eassumption. Qed.
 Print Assumptions C03_other_errors_propagate.
 
+(* Server clause: MessageResponse::encode encodes under server_limit (or falls back to a bare
+   12-byte SERVFAIL header), so a UDP reply never exceeds max(512, advertised payload) and any
+   reply never exceeds 65535. *)
+Theorem C03_server_reply_bounded : forall tcp adv m b,
+  match adv with Some p => p < 65536 | None => True end -> (* the OPT class field is a u16 *)
+  encode (N.to_nat (server_limit tcp adv)) m = OBytes b ->
+  N.of_nat (length b) <= 65535 /\
+  (tcp = false -> N.of_nat (length b) <= N.max 512 (match adv with Some p => p | None => 0 end)).
+Proof.
+  intros tcp adv m b Hadv E. apply C03_len_le_limit in E.
+  unfold server_limit in E. destruct tcp; [split; [lia|discriminate]|].
+  destruct adv as [p|]; (split; [lia|intros _; lia]).
+Qed.
+Print Assumptions C03_server_reply_bounded.
+
 (* Non-vacuity: a message whose second answer does not fit under limit 60. *)
 Definition ex_name : list (list byte) := [[119; 119; 119]; [101; 120]].
 Definition ex_msg : msg :=
